@@ -280,7 +280,9 @@ class Type4Tag(nfc.tag.Tag):
 
             self._max_le = mle
             self._max_lc = mlc
-            self._capacity = mfs - tag + 2
+            # READ BINARY and UPDATE BINARY address the file with a 16-bit
+            # offset, more than 65536 byte can thus not be used
+            self._capacity = min(mfs, 0x10000) - tag + 2
             self._readable = bool(rf == 0)
             self._writeable = bool(wf == 0)
             self._nlen_size = tag - 2
